@@ -2,7 +2,7 @@
    on the uint64-cast mask is the test on the stored integer value. *)
 From Coq Require Import ZArith QArith List Bool Lia.
 Import ListNotations.
-From PV Require Import C17.Model C17.ProofsDilate.
+From PV Require Import Generated.SkyMask C17.Model C17.ProofsDilate.
 Ltac Zify.zify_post_hook ::= Z.to_euclidean_division_equations.
 Open Scope Z_scope.
 
@@ -88,6 +88,24 @@ Qed.
 
 Lemma zrange_length : forall lo n, length (zrange lo n) = n.
 Proof. intros. unfold zrange. rewrite map_length, seq_length. reflexivity. Qed.
+
+(* canonical forms (what the generated pieces of skymask must amount to):
+   smooth(signal, width, edge_truncate=True) for an odd width >= 3 on an integer array ... *)
+Definition smooth_trunc (sig : list Z) (width : Z) : list Z :=
+  let n := Z.of_nat (length sig) in
+  let istart := (width - 1) / 2 in
+  let iend := n - (width + 1) / 2 in
+  let w2 := width / 2 in
+  map (fun i =>
+         if i <? istart then
+           Z.quot (zsum (firstn (Z.to_nat (istart + i + 1)) sig) + (istart - i) * nth 0 sig 0) width
+         else if iend <? i then
+           Z.quot (zsum (skipn (Z.to_nat (i - istart)) sig) + (i - iend) * nth (length sig - 1) sig 0) width
+         else
+           Z.quot (zsum (firstn (Z.to_nat (2 * w2 + 1)) (skipn (Z.to_nat (i - w2)) sig))) width)
+      (zrange 0 (length sig)).
+(* ... and (ormask.astype(uint64) & flag) != 0 *)
+Definition flag_test_u64 (flag m : Z) : bool := negb (Z.land (m mod 2 ^ 64) flag =? 0).
 
 (* ---------------------------------------------------------------- smooth(edge_truncate) > 0 = dilation *)
 
@@ -186,23 +204,41 @@ Proof.
   - intros H. exists i. split; [lia | exact H].
 Qed.
 
-(* the `badmask` of the model is the dilation of the flagged pixels *)
+Lemma smooth_model_trunc : forall sig (g : nat), (1 <= g)%nat ->
+  smooth_model sig (2 * Z.of_nat g + 1) true = smooth_trunc sig (2 * Z.of_nat g + 1).
+Proof.
+  intros sig g Hg. unfold smooth_model, smooth_trunc.
+  replace ((2 * Z.of_nat g + 1) mod 2 =? 0) with false by (symmetry; apply Z.eqb_neq; lia).
+  replace (2 * Z.of_nat g + 1 <? 3) with false by (symmetry; apply Z.ltb_ge; lia).
+  reflexivity.
+Qed.
+
+(* the `badmask` of the model (generated guard, width, smooth arguments and test) is the dilation of the flagged pixels *)
 Lemma sky_bad_eq : forall (flagged : list bool) (g : nat),
-  (if (0 <? g)%nat
-   then let width := 2 * Z.of_nat g + 1 in
-        map (fun v => 0 <? v) (smooth_trunc (map (fun b : bool => if b then width else 0) flagged) width)
+  (if sky_grow_guard (Z.of_nat g)
+   then let width := sky_width (Z.of_nat g) in
+        map sky_smooth_test
+            (smooth_model (map (fun b : bool => (if b then 1 else 0) * sky_smooth_scale width) flagged)
+                          (sky_smooth_width width) sky_smooth_edge)
    else flagged) = dilate_spec flagged g.
 Proof.
-  intros. apply list_ext. intros i.
+  intros. unfold sky_grow_guard, sky_width, sky_smooth_scale, sky_smooth_width, sky_smooth_edge. cbv zeta.
+  apply list_ext. intros i.
   destruct (Nat.lt_ge_cases i (length flagged)) as [Hi|Hi].
-  - rewrite dilate_spec_nth by assumption. destruct (0 <? g)%nat eqn:E.
-    + apply Nat.ltb_lt in E. apply (smooth_dilate flagged g i); lia.
-    + apply Nat.ltb_ge in E. replace g with O by lia. rewrite dil_at_zero. apply nth_error_nth'. exact Hi.
+  - rewrite dilate_spec_nth by assumption. destruct (0 <? Z.of_nat g) eqn:E.
+    + apply Z.ltb_lt in E. rewrite smooth_model_trunc by lia.
+      replace (map (fun b : bool => (if b then 1 else 0) * (2 * Z.of_nat g + 1)) flagged)
+        with (map (lift (2 * Z.of_nat g + 1)) flagged)
+        by (apply map_ext; intros [|]; unfold lift; lia).
+      replace (map sky_smooth_test) with (map (fun v => 0 <? v)) by reflexivity.
+      apply (smooth_dilate flagged g i); lia.
+    + apply Z.ltb_ge in E. replace g with O by lia. rewrite dil_at_zero. apply nth_error_nth'. exact Hi.
   - assert (L : forall l : list bool, length l = length flagged -> nth_error l i = None)
       by (intros l Hl; apply nth_error_None; lia).
     rewrite (L (dilate_spec flagged g)) by (unfold dilate_spec; rewrite map_length, seq_length; reflexivity).
-    apply L. destruct (0 <? g)%nat; [|reflexivity].
-    cbv zeta. unfold smooth_trunc. rewrite !map_length, zrange_length. reflexivity.
+    apply L. destruct (0 <? Z.of_nat g) eqn:E; [|reflexivity].
+    apply Z.ltb_lt in E. rewrite smooth_model_trunc by lia.
+    unfold smooth_trunc. rewrite !map_length, zrange_length. reflexivity.
 Qed.
 
 Definition Flagged (f1 f2 : Z) (ms : list Z) (g i : nat) : Prop :=
@@ -234,14 +270,15 @@ Theorem skymask_row_model_correct : forall f1 f2 g iv ms i v,
               (Flagged f1 f2 ms g i -> out == 0) /\ (~ Flagged f1 f2 ms g i -> out == v).
 Proof.
   intros f1 f2 g iv ms i v H1 H2 HL Hv. unfold skymask_row_model.
-  replace (map (fun m => flag_test_u64 f1 m || flag_test_u64 f2 m) ms) with (map (flagged_spec f1 f2) ms)
-    by (apply map_ext; intros m; unfold flagged_spec; rewrite !flag_test_u64_ok by assumption; reflexivity).
+  replace (map (fun m => sky_flagged m f1 f2) ms) with (map (flagged_spec f1 f2) ms)
+    by (apply map_ext; intros m; unfold flagged_spec, sky_flagged; cbv zeta;
+        rewrite <- (flag_test_u64_ok f1 m H1), <- (flag_test_u64_ok f2 m H2); reflexivity).
   rewrite sky_bad_eq.
   assert (Hi : (i < length ms)%nat) by (rewrite HL; apply nth_error_Some; congruence).
   rewrite nth_error_map.
   rewrite (nth_error_combine iv _ i v (dil_at (map (flagged_spec f1 f2) ms) g i) Hv)
     by (apply dilate_spec_nth; rewrite map_length; exact Hi).
-  cbn [option_map fst snd]. eexists. split; [reflexivity|].
+  cbn [option_map fst snd]. unfold sky_apply. eexists. split; [reflexivity|].
   rewrite <- dil_flagged_iff. destruct (dil_at (map (flagged_spec f1 f2) ms) g i); cbn [b2q]; split; intros H.
   - ring.
   - exfalso. apply H. reflexivity.
@@ -276,8 +313,16 @@ Proof.
   rewrite nth_error_map.
   rewrite (nth_error_combine iv _ i v (dil_at (map (fun _ : Q => false) iv) g i) Hv)
     by (apply dilate_spec_nth; rewrite map_length; exact Hi).
-  cbn [option_map fst snd]. eexists. split; [reflexivity|].
+  cbn [option_map fst snd]. unfold sky_apply. eexists. split; [reflexivity|].
   destruct (dil_at (map (fun _ : Q => false) iv) g i) eqn:E; [|cbn; ring].
   apply dil_at_spec in E as (j & _ & E). rewrite nth_error_map in E.
   destruct (nth_error iv j); discriminate.
+Qed.
+
+(* the generated flag test (cast + two `& flag != 0` tests, or-ed) is the test on the stored integer value *)
+Lemma sky_flagged_ok : forall f1 f2 m, (0 <= f1 < 2 ^ 64)%Z -> (0 <= f2 < 2 ^ 64)%Z ->
+  sky_flagged m f1 f2 = flagged_spec f1 f2 m.
+Proof.
+  intros f1 f2 m H1 H2. unfold flagged_spec, sky_flagged. cbv zeta.
+  rewrite <- (flag_test_u64_ok f1 m H1), <- (flag_test_u64_ok f2 m H2). reflexivity.
 Qed.
